@@ -34,6 +34,12 @@ fn capture<R>(fd: i32, f: impl FnOnce() -> R) -> Result<(R, Vec<u8>), String> {
         if libc::pipe2(p.as_mut_ptr(), libc::O_CLOEXEC) != 0 {
             return Err("pipe2 failed".into());
         }
+        // room for far more than any expected text, and a full pipe answers EAGAIN instead of
+        // blocking: code that writes too much (duplicated text, endless re-sending) must end in a
+        // wrong-output report, not in a harness that waits for itself
+        libc::fcntl(p[1], libc::F_SETPIPE_SZ, 1 << 20);
+        let fl = libc::fcntl(p[1], libc::F_GETFL);
+        libc::fcntl(p[1], libc::F_SETFL, fl | libc::O_NONBLOCK);
         let saved = libc::fcntl(fd, libc::F_DUPFD_CLOEXEC, 800);
         if saved < 0 {
             libc::close(p[0]);
